@@ -2,7 +2,7 @@
 # measures every seeded change against its property's check, several at a time: each worker owns a scratch worktree of /repo
 # (under /tmp, removed at the end), applies one seeded change there and runs `VERIF_REPO=<worktree> bin/check <prop> <tier>`.
 # /repo itself is not touched; evidence files are not written (vlib.ALT_REPO).  Results go to seeded/<id>/meta.json.
-# usage: seedmatrix_par.sh [tier] [workers] [seed ids...]
+# usage: seedmatrix_par.sh [tier] [workers] [seed ids...]      (VROOT=<copy of /verif>: run the checks from a snapshot, so that /verif can be edited meanwhile)
 tier=${1:-quick}; workers=${2:-4}; shift 2 2>/dev/null
 cd /verif
 ids=("$@"); [ ${#ids[@]} -eq 0 ] && ids=($(ls seeded))
@@ -12,7 +12,7 @@ one() {
   patch=/verif/seeded/$id/patch.diff; [ -f /verif/seeded/$id/patch_rebased.diff ] && patch=/verif/seeded/$id/patch_rebased.diff
   git -C $wt checkout -q -- . ; git -C $wt clean -fdq
   if ! git -C $wt apply $patch 2>/dev/null; then line="$id ($prop $tier): PATCH DOES NOT APPLY"; else
-    out=$(cd /verif && VERIF_REPO=$wt timeout 3000 python3 bin/check $prop $tier 2>&1); rc=$?
+    out=$(cd ${VROOT:-/verif} && VERIF_REPO=$wt timeout 3000 python3 bin/check $prop $tier 2>&1); rc=$?
     line="$id ($prop $tier): exit=$rc $(echo "$out" | grep -c '^VIOLATION') violation lines; $(echo "$out" | grep -m1 -A1 '^VIOLATION' | tail -1 | cut -c1-260)"
     [ $rc -eq 2 ] && line="$line $(echo "$out" | grep INCONCLUSIVE | head -1 | cut -c1-200)"
   fi
